@@ -6,6 +6,7 @@ import M4ri.Proto
 import M4ri.BMat
 import M4ri.Spec
 import M4ri.Mul
+import M4ri.Elim
 namespace M4ri
 
 abbrev R := Except String
@@ -263,9 +264,120 @@ def runOpMul (op : String) (a : Array Val) : R (Array Val × Option (Array Val))
       pure (prodResult C0 (addmulTop 64 Cb Ab Bb c same) (Cb.add prod))
   | _ => throw "unknown-op"
 
+/-- result of an in-place matrix operation given as an abstract value -/
+def inPlace (M : Mzd) (v : BMat) : Val := .mat (M.putB v)
+
+open Mzd BMat in
+def runOpAlg (op : String) (a : Array Val) : R (Array Val × Option (Array Val)) := do
+  match op with
+  -- ---------------------------------------------------------------- C02 (exact mirrors)
+  | "gauss_delayed" =>
+    let M ← argMat a 0; let sc ← argNat a 1; let full := (← argNat a 2) ≠ 0
+    let (R, r) := gaussDelayed M.toB sc full
+    pure (same #[.int r, inPlace M R])
+  | "echelonize_naive" =>
+    let M ← argMat a 0; let full := (← argNat a 1) ≠ 0
+    let (R, r) := gaussDelayed M.toB 0 full
+    pure (#[.int r, inPlace M R], if full then some #[.int M.toB.rank, inPlace M M.toB.rref] else none)
+  -- canonical results for the routines that are not mirrored step by step: rank, and the RREF when `full`
+  | "echelonize_m4ri" | "echelonize_m4ri_h" | "echelonize_pluq" | "echelonize" =>
+    let M ← argMat a 0; let full := (← argNat a 1) ≠ 0
+    if full then pure (same #[.int M.toB.rank, inPlace M M.toB.rref]) else pure (same #[.int M.toB.rank])
+  | "top_echelonize_m4ri" =>
+    let M ← argMat a 0
+    pure (same #[.int M.toB.rank, inPlace M M.toB.rref])
+  | "check_echelon" =>
+    -- A0 R r full
+    let A ← argMat a 0; let Rm ← argMat a 1; let r ← argNat a 2; let full := (← argNat a 3) ≠ 0
+    pure (same #[vb (checkEchelon A.toB Rm.toB r full)])
+  -- ---------------------------------------------------------------- C03
+  | "ple_naive" | "pluq_naive" =>
+    let M ← argMat a 0; let P ← argPerm a 1; let Q ← argPerm a 2
+    let (S, P', Q', r) := if op == "ple_naive" then pleNaive M.toB P Q else pluqNaive M.toB P Q
+    pure (#[.int r, inPlace M S, .perm P', .perm Q'], none)
+  | "ple" | "ple_russian" =>
+    -- canonical: rank and column rank profile
+    let M ← argMat a 0
+    let prof := M.toB.rankProfile
+    pure (same #[.int prof.length, .perm prof.toArray])
+  | "pluq" | "pluq_russian" =>
+    let M ← argMat a 0
+    pure (same #[.int M.toB.rank])
+  | "check_ple" | "check_pluq" =>
+    -- A0 S P Q r
+    let A ← argMat a 0; let S ← argMat a 1; let P ← argPerm a 2; let Q ← argPerm a 3; let r ← argNat a 4
+    let ok := if op == "check_ple" then checkPLE A.toB S.toB P Q r else checkPLUQ A.toB S.toB P Q r
+    let prof := A.toB.rankProfile
+    let profOK := r == prof.length && (List.range r).all fun i => Q.getD i 0 == prof.getD i 0
+    pure (same #[vb ok, vb (if op == "check_ple" then profOK else r == prof.length)])
+  -- ---------------------------------------------------------------- C04 (unique result: substitution form)
+  | "trsm_ll" | "trsm_ul" | "trsm_ur" | "trsm_lr" =>
+    let T ← argMat a 0; let B ← argMat a 1
+    let left := op == "trsm_ll" || op == "trsm_ul"
+    if (left ∧ T.ncols ≠ B.nrows) ∨ (¬ left ∧ T.nrows ≠ B.ncols) ∨ T.nrows ≠ T.ncols then throw "die" else
+    let X := match op with
+      | "trsm_ll" => trsmLowerLeft T.toB B.toB
+      | "trsm_ul" => trsmUpperLeft T.toB B.toB
+      | "trsm_ur" => trsmUpperRight T.toB B.toB
+      | _ => trsmLowerRight T.toB B.toB
+    pure (same #[inPlace B X])
+  -- ---------------------------------------------------------------- C05
+  | "inv_m4ri" =>
+    let A ← argMat a 1
+    let inv := inverseSpec A.toB
+    if argIsNull a 0 then pure (same #[.mat (ofB inv)]) else
+      let B ← argMat a 0; pure (same #[inPlace B inv])
+  | "invert_naive" =>
+    -- INV A I
+    let A ← argMat a 1; let I ← argMat a 2
+    match invertNaive A.toB I.toB with
+    | none => pure (same #[.null])
+    | some inv =>
+      if argIsNull a 0 then pure (same #[.mat (ofB inv)]) else
+        let B ← argMat a 0; pure (same #[inPlace B inv])
+  | "trtri_upper" =>
+    let U ← argMat a 0
+    pure (same #[inPlace U (inverseSpec U.toB)])
+  -- ---------------------------------------------------------------- C06 / C07 (canonical + checker)
+  | "solve_left" | "pluq_solve_left" =>
+    -- A B cutoff check ; canonical: the verdict when the check is on
+    let A ← argMat a 0; let B ← argMat a 1; let check := (← argNat a 3) ≠ 0
+    if A.ncols > B.nrows ∨ B.nrows ≠ max A.ncols A.nrows then throw "die" else
+    pure (same #[.int (if check then (if solvable A.toB B.toB then 0 else -1) else 0)])
+  | "check_solve" =>
+    -- A0 B0 Bout ret check: when ret = 0 the first n rows of Bout solve the system (incl. padding rows)
+    let A ← argMat a 0; let B0 ← argMat a 1; let X ← argMat a 2; let ret ← argInt a 3
+    let check := (← argNat a 4) ≠ 0
+    let Ab := A.toB; let Bb := B0.toB
+    let Xn := X.toB.sub 0 0 A.ncols X.ncols
+    let rows := max A.nrows A.ncols
+    let Apad : BMat := ⟨rows, A.ncols, (Array.range rows).map fun i => if i < A.nrows then Ab.row i else 0⟩
+    let solves := (Apad.mul Xn).eqM Bb
+    let sol := solvable Ab Bb
+    -- with the check: verdict right, and a solution when solvable; without: a solution whenever one exists
+    let ok := if check then (ret == 0) == sol && (ret != 0 || solves) else (!sol || solves)
+    pure (same #[vb ok])
+  | "kernel" =>
+    let A ← argMat a 0
+    let r := A.toB.rank
+    if r = A.ncols then pure (same #[.null]) else pure (same #[.int A.ncols, .int (A.ncols - r)])
+  | "check_kernel" =>
+    -- A0 K
+    let A ← argMat a 0; let K ← argMat a 1
+    let Ab := A.toB; let Kb := K.toB
+    let r := Ab.rank
+    let ok := Kb.nrows == A.ncols && Kb.ncols == A.ncols - r &&
+      (Ab.mul Kb).eqM (BMat.zero A.nrows Kb.ncols) && Kb.rank == Kb.ncols
+    pure (same #[vb ok])
+  | _ => throw "unknown-op"
+
+def mulOps : List String :=
+  ["mul_naive", "addmul_naive", "mul_va", "mul_naive_t", "mul_m4rm", "addmul_m4rm", "mul", "addmul"]
+
 def runOp (op : String) (a : Array Val) : R (Array Val × Option (Array Val)) :=
+  if mulOps.contains op then runOpMul op a else
   match runOpW op a with
-  | .error "unknown-op" => runOpMul op a
+  | .error "unknown-op" => runOpAlg op a
   | r => r
 
 end M4ri
